@@ -58,6 +58,11 @@ GetK(k) ==
      /\ Step(<<"mget", k, KSz>>)
      /\ UNCHANGED <<dig, root, dict, nextId>>
 
+PopAll ==
+  /\ Len(hist) <= MaxOps /\ Len(dict) > 0
+  /\ dict' = <<>> /\ root' = HElems(0, <<>>, <<>>) /\ res' = MOk(0, FALSE)
+  /\ Step(<<"mpop">>) /\ UNCHANGED <<dig, nextId>>
+
 Growing == Len(hist) <= GrowUntil
 Shrinking == Len(hist) > ShrinkFrom
 Next == \/ ~Shrinking /\ \E k \in Keys, v \in VSizes : SetK(k, v)
@@ -65,6 +70,7 @@ Next == \/ ~Shrinking /\ \E k \in Keys, v \in VSizes : SetK(k, v)
         \/ Shrinking /\ \E k \in {j \in Keys : HasKey(dict, j)}, v \in VSizes : SetK(k, v)
         \/ ~Growing /\ \E k \in (IF Shrinking THEN {j \in Keys : HasKey(dict, j)} ELSE Keys) : RemoveK(k)
         \/ WithReads /\ \E k \in Keys : GetK(k)
+        \/ WithReads /\ PopAll
 
 Spec == Init /\ [][Next]_mvars
 
